@@ -2,6 +2,7 @@ SPECIFICATION Spec
 CONSTANT Family = "C04"
 CONSTANT MaxLen = 1
 CONSTANT Depth = 1
+CONSTANT SmallLeaves = FALSE
 CONSTANT MagTable <- Mags
 CONSTANT CallImmediatePlain = FALSE
 CONSTANT JudgeAmbiguousDelay = FALSE
